@@ -34,3 +34,6 @@ Definition combine_scores (mode : Z) (fwd rev : Q) : Q :=
 Definition score_matrix (s : smat) (normalized : bool) (selfhits : list Q) (data : list (list (list (Q * Q)))) : list (list Q) :=
   map (fun qi => map (fun pts => normalise normalized (raw_score s pts) (nth (fst qi) selfhits 1%Q)) (snd qi))
       (combine (seq 0 (length data)) data).
+
+(* scores='both': one forward and one reverse row per query, interleaved, queries in input order *)
+Definition both_layout {A} (fw rv : list A) : list A := flat_map (fun p => [fst p; snd p]) (combine fw rv).
